@@ -4,6 +4,7 @@ Props/C07_Mp4.lean — C07 "Saving unchanged tags is lossless and idempotent", M
 (what `MP4Tags._render` / the failed atoms give: C01); the statements are about the file.
 -/
 import MutagenModel.Proofs.Container.Mp4Props
+import MutagenModel.Proofs.Container.Mp4Reader
 set_option linter.unusedVariables false
 namespace Mutagen.C07
 open Mutagen Mutagen.Mp4C
@@ -65,5 +66,24 @@ example : exLayout.OK ∧ exLayout.kind = .freeAfter ∧ exLayout.freePayload = 
     saveTags true (saveTags true exLayout.render (ilstData exItems) .default).2 (ilstData exItems) .default =
       (none, (saveTags true exLayout.render (ilstData exItems) .default).2) := by
   decide +kernel
+
+/-! ### atoms mutagen failed to parse -/
+
+/-- `_failed_atoms` (Model/Container/Mp4Reader.lean: a child whose parser raised MP4MetadataError keeps its payload
+under its name) are written back: `MP4Tags.save` appends, BEHIND the rendered items (which are sorted by
+`_item_sort_key`; the failed atoms are not sorted: they follow in the order they were met), `Atom.render(name, payload)`
+for every payload kept — unless a tag with that key exists now.  For a child that had a 32-bit header these are its
+bytes exactly: size, name, payload.  (A child with a 64-bit header comes back with a 32-bit one.) -/
+theorem mp4_failed_atoms_kept (t : Mp4R.Tags) (name data : Bytes) (ds : List Bytes)
+    (h : (name, ds) ∈ t.failed) (hd : data ∈ ds) (hk : ∀ it ∈ t.items, it.1 ≠ name) :
+    Mp4Tags.renderAtom name data ∈ Mp4R.failedValues t ∧
+      Mp4Tags.renderAtom name data = toBE 4 (data.length + 8) ++ name ++ data :=
+  ⟨Mp4R.failedValues_mem t name ds data h hd hk, rfl⟩
+
+/-- a child the reader cannot interpret is kept: after `_failed_atoms.setdefault(name, []).append(data)` the payload
+is there under its name -/
+theorem mp4_failed_atom_recorded (name data : Bytes) (l : List (Bytes × List Bytes)) :
+    ∃ ds, (name, ds) ∈ Mp4R.addFailed name data l ∧ data ∈ ds :=
+  Mp4R.mem_addFailed name data l
 
 end Mutagen.C07
